@@ -626,3 +626,58 @@ fn output_path_of(spec: &RunSpec) -> Option<String> {
         _ => None,
     }
 }
+
+/// Two invocations that ran at the same time in one directory: both must have
+/// succeeded and delivered exactly their own documents.
+pub fn judge_duo(specs: &[RunSpec; 2], obs: &[Observed; 2]) -> Vec<Violation> {
+    let mut v = vec![];
+    let mut push = |class: &'static str, detail: String| {
+        v.push(Violation { class, detail, signature: json!({"mode": "concurrent", "class": class, "output": "files", "fault": "none", "model_failure": "none"}) });
+    };
+    let exps: Vec<Expect> = (0..2).map(|i| expect_in(&specs[i], &obs[i].before)).collect();
+    if exps.iter().any(|e| e.failure.is_some()) {
+        return vec![]; // not a well-formed pair (the generator avoids this)
+    }
+    let mut wanted: BTreeMap<String, Vec<u8>> = BTreeMap::new();
+    for e in &exps {
+        for (p, d) in &e.outputs {
+            wanted.insert(p.clone(), d.clone());
+        }
+    }
+    for i in 0..2 {
+        let who = if i == 0 { "first" } else { "second" };
+        if obs[i].timed_out {
+            push("hang", format!("the {} invocation did not terminate", who));
+        }
+        if let Some(s) = obs[i].signal {
+            push("killed_by_signal", format!("the {} invocation died with signal {}", who, s));
+        } else if obs[i].exit != Some(0) {
+            push("exit_nonzero_on_success", format!("the {} invocation exited with {:?}: {}", who, obs[i].exit, simcommon::preview(&String::from_utf8_lossy(&obs[i].stderr), 200)));
+        }
+        if let Some(want) = &exps[i].stdout {
+            if obs[i].stdout != *want {
+                push("wrong_stdout", format!("{} invocation: {}", who, describe_diff(&obs[i].stdout, want)));
+            }
+        }
+    }
+    let after = &obs[0].after;
+    for (p, want) in &wanted {
+        match after.get(p) {
+            Some(Node::File(c)) if c == want => {}
+            Some(Node::File(c)) => {
+                let whose = wanted.iter().find(|(q, d)| *q != p && d.as_slice() == c.as_slice()).map(|(q, _)| format!(" (it holds the document meant for {})", q)).unwrap_or_default();
+                push("wrong_output", format!("{}{}: {}", p, whose, describe_diff(c, want)));
+            }
+            _ => push("missing_output", format!("{} was not written", p)),
+        }
+    }
+    for (p, node) in after {
+        if obs[0].before.get(p) == Some(node) || wanted.contains_key(p) {
+            continue;
+        }
+        if let Node::File(c) = node {
+            push("unexpected_file", format!("{} left behind ({} bytes)", p, c.len()));
+        }
+    }
+    v
+}
